@@ -575,7 +575,7 @@ func (r *Reconciler) commitRollback(ctx context.Context, transaction *configapi.
 
 			configuration.Committed.Target = transaction.Status.Rollback.Index
 			if err := r.updateConfigurationStatus(ctx, configuration); err != nil {
-				return controller.Result{}, false, nil
+				return controller.Result{}, false, err
 			}
 		}
 
